@@ -697,6 +697,12 @@ class StateRun(object):
         tor.verbs['CLOSECIRCUIT'] = self.cmd_closecircuit
         tor.verbs['CLOSESTREAM'] = self.cmd_closestream
         tor.add_option('__LeaveStreamsUnattached', 'Boolean', ['0'])
+        tor.add_option('SocksPort', 'LineList', ['9050'])
+        tor.add_option('Nickname', 'String', ['sim'])
+        tor.info['config/names'] = lambda: ['%s %s' % (o.name, o.type) for o in tor.conf_order]
+        tor.info['config/defaults'] = lambda: None
+        tor.info['onions/current'] = lambda: ''
+        tor.info['onions/detached'] = lambda: ''
         tor.on_setconf_applied = self.on_setconf
         self.leave_unattached = False
         self.attach_cmds = []       # (sid, cid)
@@ -1023,6 +1029,12 @@ class StateRun(object):
             self.proto.post_bootstrap.addCallback(lambda p: (
                 self.proto.add_event_listener('CIRC', self.app_heard.append),
                 self.proto.add_event_listener('STREAM', self.app_heard.append), p)[2])
+        if self.prop in ('C07', 'C08') and ch.chance(1, 6, 'configview'):
+            # the application also keeps a configuration view on the same control connection (what Tor.get_config() next
+            # to Tor.create_state() gives): its queries and its CONF_CHANGED subscription share the connection
+            from txtorcon.torconfig import TorConfig
+            sim.probe('configuration-view-on-the-same-connection')
+            self.proto.post_bootstrap.addCallback(lambda p: (TorConfig.from_protocol(p).addErrback(lambda f: None), p)[1])
         self.state_obj = TorState(self.proto)
         self.state = self.state_obj
         self.real_circs = []
